@@ -535,8 +535,9 @@ class Renderer:
     def r_Item(self, n):
         txt = compact(self.t(n["s"], n["e"]))
         table = {
-            "useindexmap::map::Entry::*;": "use crate::Entry::*;",
-            "useindexmap::map::MutableKeys;": "",
+            # resolved against the specification stub `crate::indexmap` (in scope through the module imports)
+            "useindexmap::map::Entry::*;": "use indexmap::map::Entry::*;",
+            "useindexmap::map::MutableKeys;": "use indexmap::map::MutableKeys;",
         }
         if txt not in table:
             die("%s: unsupported nested item: %s" % (self.fn.key, txt))
@@ -630,6 +631,9 @@ class Renderer:
             e = self.render(recv)
             self.log.append("R2 .%s(closure) -> match (%s) #%d" % (m, mode, n["ord"]))
             some, none_pat, none_val = ("Some", "None", "None") if mode == "option" else ("Ok", "Err(__e)", "Err(__e)")
+            nt = self.stmt_text("comb", "%s#%d" % (m, n["ord"]), "none")
+            if nt:
+                none_val = "{" + nt + none_val + "}"
             if m == "map":
                 return "(match %s { %s(%s) => %s(%s), %s => %s, })" % (e, some, pat, some, body, none_pat, none_val)
             if m == "and_then":
